@@ -8,6 +8,7 @@ import inspect
 import operator
 
 import z3
+from .engine import RLIMIT_PER_MS
 
 from . import vals as V
 from .sym import (Z, C, LList, LTuple, LDict, LSet, SObj, BoundMethod, Closure, BuiltinMethod, ZBool, ZInt, ZSeq,
@@ -58,6 +59,7 @@ def call_builtin(ip, f, args, kwargs):
         if ef is not None:
             sv = z3.Solver()
             sv.set("timeout", 3000)
+            sv.set("rlimit", RLIMIT_PER_MS * (3000))
             sv.add(z3.Not(V.is_str(ef)))
             ok = sv.check() == z3.unsat
         if not ok:
